@@ -192,6 +192,11 @@ class Gen:
     def script(self, nops):
         self.setup()
         self.body(nops)
+        if self.r.random() < 0.25:
+            # shutdown with whatever backlog there is: only calls that are not parked can be drained
+            self.emit("K %d" % self.rnd_dt())
+            self.emit("X")
+            return self.lines
         self.finish(self.r.random() < 0.6)
         return self.lines
 
@@ -237,6 +242,19 @@ def directed_scripts(variant):
         "cfg grace=0 soft=4 hard=8 tcap=2", "sink 0 lvl=0", "logger 0 sinks=0 lvl=0", "start", "T 1 start",
         "IB 1 0 3 7", "LB 1 0 10", "LB 1 0 10", "LB 1 0 10", "LB 1 0 10", "L 1 0 7 10", "LB 1 0 10", "LB 1 0 10", "FB 1 0",
         "L 1 0 4 10", "LB 1 0 10"] + ["P"] * 16 + ["Q"]))
+    # shutdown with a backlog: thread 1 has more than `hard` statements queued, thread 2 a younger one (C05/C07)
+    out.append(("dir_exit_backlog", [
+        "cfg grace=1 soft=2 hard=2 tcap=2", "sink 0 lvl=0", "logger 0 sinks=0 lvl=0", "start",
+        "T 1 start", "T 2 start"] + ["L 1 0 4 10", "K 10"] * 6 + ["L 2 0 4 10", "K 100000", "X"]))
+    # one cut-off per pass: time advances between the reads of two queues
+    out.append(("dir_cutoff_per_pass", [
+        "cfg grace=10 soft=4 hard=8 tcap=2", "sink 0 lvl=0", "logger 0 sinks=0 lvl=0", "start",
+        "T 1 start", "T 2 start", "L 1 0 4 10", "L 2 0 4 10", "K 1000000", "P", "P", "P", "P",
+        "L 1 0 4 10", "K 1000", "L 2 0 4 10", "P @2.2=K_20000", "P", "P", "K 1000000", "P", "P", "P", "Q"]))
+    out.append(("dir_cutoff_per_pass_3", [
+        "cfg grace=10 soft=4 hard=8 tcap=2", "sink 0 lvl=0", "logger 0 sinks=0 lvl=0", "start",
+        "T 1 start", "T 2 start", "T 3 start", "L 1 0 4 10", "L 2 0 4 10", "L 3 0 4 10", "K 1000000"] + ["P"] * 5 + [
+        "L 2 0 4 10", "K 1000", "L 3 0 4 10", "K 500", "L 1 0 4 10", "P @2.3=K_20000 @3.1=K_1", "P", "P", "K 1000000", "P", "P", "P", "P", "Q"]))
     if variant % 2 == 0:
         # blocked producer resumes after the backend made room (C09 end to end)
         out.append(("dir_blocked_resume", [
@@ -329,7 +347,8 @@ def oracles(lines):
     write_order = []    # (sink, id, lvl, ts)
     pending_by_actor = {}   # actor -> id of the log call it is parked in
     flush_wait = {}     # actor -> dict(snapshot of ids that must be out, sinks)
-    has_faults = any(s["wthrow"] or s["fthrow"] for s in rec["sinks"].values())
+    has_faults = any(s["wthrow"] for s in rec["sinks"].values())
+    has_flush_faults = any(s["fthrow"] for s in rec["sinks"].values())
     dyn_cfg_changes = False
     dropped_reported = 0
     dropped_log_calls = 0
@@ -464,7 +483,8 @@ def oracles(lines):
             write_order.append((s, i, lvl, ts))
             last_write_idx[(s, i)] = widx[0]
             widx[0] += 1
-        elif e.startswith("fl:"):
+        elif e.startswith("fl:") or e.startswith("fthrow:"):
+            # a flush that threw was still attempted (and reported); what C06/C10 exclude is a sink never asked to flush
             flushed_after[int(e.split(":")[1])] = widx[0]
         elif e.startswith("n:dropped:"):
             dropped_reported += int(e.split(":")[2])
